@@ -2,6 +2,7 @@ package backend
 
 import (
 	"context"
+	"errors"
 	"time"
 
 	"github.com/ProtonMail/gluon/connector"
@@ -50,8 +51,15 @@ func (c *verifCredConn) MarkMessagesForwarded(ctx context.Context, cache connect
 
 var verifCredConnN int
 
+// VerifCreateFails: how many of the next CreateMessage calls the remote side refuses (set by a harness)
+var VerifCreateFails int
+
 // CreateMessage: the remote side accepts an APPEND and returns the literal unchanged under a fresh remote id
 func (c *verifCredConn) CreateMessage(ctx context.Context, cache connector.IMAPStateWrite, mboxID imap.MailboxID, literal []byte, flags imap.FlagSet, date time.Time) (imap.Message, []byte, error) {
+	if VerifCreateFails > 0 {
+		VerifCreateFails--
+		return imap.Message{}, nil, errors.New("verif: the remote side refuses the message")
+	}
 	verifCredConnN++
 	return imap.Message{ID: imap.MessageID("rm-appended-" + string(rune('0'+verifCredConnN%10))), Flags: flags, Date: date}, literal, nil
 }
